@@ -117,7 +117,7 @@ class C20(Prop):
                 return False, f"filter/prereleases differ with clause order: {cl} vs {p} on {cands}"
             return True, ""
         if law == "req_extras_order":
-            ex = rng.sample(["a", "B_c", "d.e", "f", "g-h"], rng.randrange(1, 5))
+            ex = rng.sample(["a", "B_c", "d.e", "f", "g-h", "b-c", "b.c", "D_E", "A", "G_h", "g.H"], rng.randrange(1, 6))
             cl = [GS.clause(rng, ws=False) for _ in range(rng.randrange(0, 4))]
             p, q = list(ex), list(cl); rng.shuffle(p); rng.shuffle(q)
             r1 = requirements.Requirement("n[" + ",".join(ex) + "]" + ",".join(cl))
